@@ -2,6 +2,10 @@
 //! Case kinds (see coq/Model/EntryC07.v):
 //!  1 o0..o3  m0..m3                       std_to_libc_in_addr memory image
 //!  3 nph phase* nw code*                  per-upstream TCP task driven with chosen ids
+//!  5 t0 mask delay silent  after rcodeA ownA utxA nrespB rcodeB elapsedB
+//!                                         history on ONE service with a UDP-only upstream: a query answered
+//!                                         per (mask, delay), then the adaptive first-retry delay is read,
+//!                                         then (silent = 1) a query to a silent upstream
 //!  4 t0 t0hi slack nq (lst proto mask delay dup special)*  (nresp rcode own srcok idok utx ttx)*
 //!                                         the real DNS service against a scripted upstream
 //! Everything runs inside this process: tokio runtime, sockets on loopback with
@@ -784,11 +788,76 @@ fn gen_batch(rng: &mut Rng, nq: usize, t0: u64, stats: &mut Stats) -> Vec<Q> {
     qs
 }
 
+// ------------------------------------------------------------------ kind 5
+/// One UDP query to `target`; waits at most `cap`.  Returns (responses, rcode, own, elapsed ms of the first).
+async fn one_udp_query(n: u64, target: SocketAddr, cap: Duration) -> (u64, u64, u64, u64) {
+    let sock = UdpSocket::bind("127.0.0.1:0").await.unwrap();
+    let id = (n as u16).wrapping_mul(40503);
+    let start = std::time::Instant::now();
+    let _ = sock.send_to(&build_query(id, n), target).await;
+    let mut buf = vec![0u8; 4096];
+    match tokio::time::timeout(cap, sock.recv_from(&mut buf)).await {
+        Ok(Ok((l, from))) => {
+            let mut o = Obs { rcode: 255, ..Default::default() };
+            note(&mut o, n, id, &buf[..l], from == target);
+            (1, o.rcode, if o.idok == 1 { o.own } else { 0 }, start.elapsed().as_millis() as u64)
+        }
+        _ => (0, 255, 0, start.elapsed().as_millis() as u64),
+    }
+}
+
+/// The history of C07-5/C07-6: the upstream speaks UDP only (nothing listens on its TCP port).
+/// Query A is treated per (mask, delay); then the global adaptive first-retry delay is read; then,
+/// if `silent`, query B meets a silent upstream on the same service.
+async fn run_adapt(t0: u64, mask: u64, delay: u64, silent: bool) -> Vec<u64> {
+    use erbium_net::addr::WithPort as _;
+    let usock = Arc::new(UdpSocket::bind("127.0.0.1:0").await.unwrap());
+    let upaddr = usock.local_addr().unwrap();
+    let (na, nb) = (fresh_q(), fresh_q());
+    let mut cfg = HashMap::new();
+    cfg.insert(na, Q { lst: 0, proto: 0, mask, delay, dup: 0, special: 0 });
+    cfg.insert(nb, Q { lst: 0, proto: 0, mask: 15, delay: 0, dup: 0, special: 0 });
+    let up = Arc::new(UpCfg {
+        origin: std::time::Instant::now(),
+        last_first_us: AtomicU64::new(0),
+        cfg,
+        seen: Default::default(),
+    });
+    let t_udp = tokio::spawn(udp_upstream(usock, up.clone()));
+    let (svc, ua, _ta) = match hk::service(vec![IpAddr::V4(Ipv4Addr::LOCALHOST).with_port(0)], upaddr).await {
+        Ok(x) => x,
+        Err(_) => panic!("service did not start"),
+    };
+    let t_svc = tokio::spawn(async move {
+        let _ = svc.run().await;
+    });
+    hk::set_dns_timeout_ms(t0).await;
+    let (_, rcode_a, own_a, _) = one_udp_query(na, ua[0], Duration::from_millis(26 * t0 + 1500)).await;
+    // the update of the global delay happens just before the reply is sent; give it a moment
+    tokio::time::sleep(Duration::from_millis(50)).await;
+    let after = hk::dns_timeout_ms().await;
+    let utx_a = up.seen.lock().unwrap().get(&na).map(|s| s.utx).unwrap_or(0);
+    let (mut nresp_b, mut rcode_b, mut el_b) = (0, 0, 0);
+    if silent {
+        // bound of C07_retry_bounded for the CAPPED first-retry delay: 25.375 x 2 s = 50.75 s
+        let cap = Duration::from_millis(50750 + 1500);
+        let (n, r, _, e) = one_udp_query(nb, ua[0], cap).await;
+        nresp_b = n;
+        rcode_b = r;
+        el_b = e;
+    }
+    hk::set_dns_timeout_ms(t0).await;
+    t_svc.abort();
+    t_udp.abort();
+    vec![after, rcode_a, own_a, utx_a, nresp_b, rcode_b, el_b]
+}
+
 // ------------------------------------------------------------------ driver
 enum Case {
     Cmsg([u8; 4], u64),
     Demux(Vec<Phase>),
     Batch(u64, Vec<Q>),
+    Adapt(u64, u64, u64, bool),
 }
 
 fn parse_case(ts: &[u64]) -> Option<Case> {
@@ -822,6 +891,7 @@ fn parse_case(ts: &[u64]) -> Option<Case> {
             }
             Some(Case::Demux(phases))
         }
+        5 => Some(Case::Adapt(nx(&mut i)?, nx(&mut i)?, nx(&mut i)?, nx(&mut i)? != 0)),
         4 => {
             let t0 = nx(&mut i)?;
             let _t_hi = nx(&mut i)?;
@@ -858,7 +928,9 @@ fn run(args: &Args, out: &mut dyn Write) -> Stats {
         let n = args.n.max(8);
         let n_batch = (n / 32).max(4);
         let n_demux = n / 5;
-        let n_cmsg = n - n_batch - n_demux;
+        let adapt: Vec<(u64, u64)> = vec![(0, 0), (1, 0), (0, 1200), (2, 1000), (3, 0), (6, 0), (5, 0), (4, 1400)];
+        let n_adapt = if args.tier == "thorough" { 24 } else { adapt.len() as u64 };
+        let n_cmsg = n - n_batch - n_demux - n_adapt.min(n / 4);
         let fixed: [[u8; 4]; 10] = [
             [127, 0, 0, 1],
             [127, 0, 0, 2],
@@ -884,6 +956,18 @@ fn run(args: &Args, out: &mut dyn Write) -> Stats {
             cases.push(Case::Demux(gen_demux(&mut rng, k == 0, &mut stats)));
         }
         let t0 = hk::MIN_DNS_TIMEOUT_MS;
+        for k in 0..n_adapt {
+            let (mask, delay) = if (k as usize) < adapt.len() {
+                adapt[k as usize]
+            } else if rng.chance(1, 2) {
+                (rng.below(15), 0)
+            } else {
+                (2 * rng.below(8), rng.range(900, 1500))
+            };
+            // one history per thorough run goes on to a silent upstream (16-50 s)
+            let silent = args.tier == "thorough" && k == 2;
+            cases.push(Case::Adapt(t0, mask, delay, silent));
+        }
         for k in 0..n_batch {
             let nq = if k % 12 == 0 { 256 } else { *rng.pick(&[5usize, 8, 16, 24, 40]) };
             cases.push(Case::Batch(t0, gen_batch(&mut rng, nq, t0, &mut stats)));
@@ -895,6 +979,19 @@ fn run(args: &Args, out: &mut dyn Write) -> Stats {
         if let Case::Cmsg(ip, k) = c {
             stats.bump("cmsg");
             writeln!(out, "{}", run_cmsg(*ip, *k).0).unwrap();
+        }
+    }
+    // kind 5: one at a time and alone (they read and move the process-wide adaptive delay)
+    for c in &cases {
+        if let Case::Adapt(t0, mask, delay, silent) = c {
+            stats.bump(if *delay > *t0 { "adapt.late-reply" } else { "adapt.prompt" });
+            let o = rt.block_on(run_adapt(*t0, *mask, *delay, *silent));
+            let mut t = Toks::new();
+            t.n(5).n(*t0).n(*mask).n(*delay).b(*silent);
+            for v in o {
+                t.n(v);
+            }
+            writeln!(out, "{}", t.0).unwrap();
         }
     }
     // kind 3: scripts run 16 at a time
